@@ -71,9 +71,13 @@ def _replay_chunk(chunk):
         absarr.RELABEL = bool(scn.get("relabel", False)) if isinstance(scn, dict) else False
         try:
             r = _check.replay(scn)
-        except Exception:
-            r = dict(violations=[dict(what="harness exception: " + traceback.format_exc(limit=6), sig="harness", variant="-")],
-                     calls=0, machinery=True)
+        except Exception as ex:
+            # the replay itself failed: on the unchanged tree this never happens (it would be a defect of the harness, and is as
+            # visible as one); on a changed tree it means the library handed back something the replay could not work with -
+            # reported as a violation of the scenario being replayed, reproducible from the replay file
+            r = dict(violations=[dict(what="the replay of this scenario raised %s (the library returned something the harness could not "
+                                           "handle): %s" % (type(ex).__name__, traceback.format_exc(limit=6)),
+                                      sig="replay-raised/%s" % type(ex).__name__, variant="-")], calls=0)
         n += 1
         calls += r.get("calls", 0)
         for v in r.get("violations", []):
